@@ -194,6 +194,20 @@ def m_py(m):
     if k == "matrix":
         M = np.array(f["M"], dtype=float)
         Mi = np.array(f["Mi"], dtype=float) if f.get("Mi") is not None else None
+        style = f.get("style")
+        if style == "F":          # results that are Fortran-contiguous: (X^T M^T)^T
+            return (lambda x: (np.asarray(x).T @ M.T).T), ((lambda y: (np.asarray(y).T @ Mi.T).T) if Mi is not None else None)
+        if style == "buffer":     # callables that fill and return the SAME work array on every call (one per result shape)
+            def mk(A):
+                bufs = {}
+
+                def fn(x):
+                    r = A @ x
+                    b = bufs.setdefault(r.shape, np.empty(r.shape))
+                    b[...] = r
+                    return b
+                return fn
+            return mk(M), (mk(Mi) if Mi is not None else None)
         return (lambda x: M @ x), ((lambda y: Mi @ y) if Mi is not None else None)
     if k == "moebius":
         a, b, c, d = f["a"], f["b"], f["c"], f["d"]
@@ -311,9 +325,51 @@ def kl_cert(d):
 # ------------------------------------------------------------------------------------------------
 # building the real geometry
 # ------------------------------------------------------------------------------------------------
+_SUBCLASSES = {}
+
+
+def user_subclass(base):
+    """a user-defined subclass that changes nothing (exact-type vs isinstance dispatch, L23)"""
+    if base not in _SUBCLASSES:
+        _SUBCLASSES[base] = type("My" + base.__name__, (base,), {})
+    return _SUBCLASSES[base]
+
+
+_SOURCE_ARRAYS = []      # the arrays handed to the constructors by the last build_geom calls (for the aliasing-over-time cells, L15)
+
+
 def build_geom(d):
     import cuqi.geometry as G
     k = d["kind"]
+    if d.get("subclass"):
+        base = {"cont1d": G.Continuous1D, "step": G.StepExpansion, "image": G.Image2D}[k]
+        if k == "cont1d":
+            return user_subclass(base)(d["n"])
+        if k == "step":
+            return user_subclass(base)(grid_of(d), n_steps=d["n_steps"], fun2par_projection=d["proj"])
+        return user_subclass(base)((d["r"], d["c"]), order=d.get("order", "C"))
+    if k == "cont1d" and d.get("gridvals"):
+        u = np.array(d["gridvals"], dtype=float)
+        _SOURCE_ARRAYS.append(u)
+        return G.Continuous1D(u)
+    if k == "cont2d" and d.get("gridvals"):
+        u0, u1 = np.array(d["gridvals"][0], dtype=float), np.array(d["gridvals"][1], dtype=float)
+        _SOURCE_ARRAYS.extend([u0, u1])
+        return G.Continuous2D((u0, u1))
+    if k == "image" and d.get("npint"):
+        return G.Image2D((np.int64(d["r"]), np.int32(d["c"])), order=d.get("order", "C"))      # image sizes as numpy integers
+    if k == "image" and d.get("defaults"):
+        assert d.get("order", "C") == "C" and not d.get("visual")
+        return G.Image2D((d["r"], d["c"]))
+    if k == "kl" and d.get("defaults"):
+        assert d["num_modes"] is None and d["decay"] == 2.5 and d["tau"] == 12.0       # the DOCUMENTED defaults
+        return G.KLExpansion(np.linspace(0, 1, d["N"]))
+    if k == "klfull" and d.get("defaults"):
+        assert d["std"] == 1.0 and d["cor_len"] == 0.2 and d["nu"] == 3.0
+        return G.KLExpansion_Full(np.linspace(0, 1, d["N"]))
+    if k == "customkl" and d.get("defaults"):
+        assert d["mean"] == 0.0 and d["std"] == 1.0 and d["trunc"] == int(d["N"] * 0.2)
+        return G.CustomKL(np.linspace(0, 1, d["N"]))
     if k == "cont1d":
         return G.Continuous1D(np.array(d["gridvals"]) if d.get("gridvals") else d["n"])
     if k == "default1d":
@@ -343,7 +399,9 @@ def build_geom(d):
         if d.get("defaults"):
             assert d["n_steps"] == 3 and d["proj"] == "mean"
             return G.StepExpansion(grid_of(d))             # every optional argument left at its default
-        return G.StepExpansion(grid_of(d), n_steps=d["n_steps"], fun2par_projection=d["proj"])
+        u = grid_of(d)
+        _SOURCE_ARRAYS.append(u)
+        return G.StepExpansion(u, n_steps=d["n_steps"], fun2par_projection=d["proj"])
     raise ValueError(k)
 
 
@@ -364,9 +422,13 @@ def has_inverse(d):
 
 
 def gcell(d):
+    return gcell0(d) + "".join("+" + f for f in ("defaults", "npint", "subclass", "implicit") if d.get(f))
+
+
+def gcell0(d):
     k = d["kind"]
     if k == "mapped":
-        return "mapped%s%s(%s)" % ({"affine": "", "moebius": "-moebius", "poly": "-poly", "matrix": "-matrix"}[m_kind(d)], "" if d["imap"] else "-noimap", gcell(d["inner"]))
+        return "mapped%s%s(%s)" % ({"affine": "", "moebius": "-moebius", "poly": "-poly", "matrix": "-matrix"}[m_kind(d)] + (("-" + d["fmap"]["style"]) if d.get("fmap", {}).get("style") else ""), "" if d["imap"] else "-noimap", gcell(d["inner"]))
     if k in ("image", "default2d"):
         return k + ("-visual" if d.get("visual") else "-" + d.get("order", "C"))
     return k
@@ -505,7 +567,7 @@ def call(g, name, x, layout=None, keep=None):
         try:
             with np.errstate(all="ignore"):
                 y = getattr(g, name)(xin)
-            return np.asarray(y)
+            return np.array(y, copy=True)      # a snapshot: user callables may legitimately return a reused work buffer
         except Exception as e:      # noqa: the refusal itself is the observation
             return None
 
@@ -602,11 +664,13 @@ def prop_check_map(d, g, mapname, x, y):
         return None
     if y is None:
         return "%s raised on a well-formed input of shape %s" % (mapname, np.asarray(x).shape)
-    want = tuple(out_base) + ((k,) if (k is not None and k >= 2) else ())
+    want = tuple(out_base) + ((k,) if (k is not None and k != 1) else ())
     if k == 1 and y.shape == tuple(out_base) + (1,):
         y = y[..., 0]        # a one-column batch may come back as a one-column batch or squeezed (documented)
     if y.shape != want:
         return "%s returned shape %s for input shape %s; reported shapes give %s" % (mapname, y.shape, np.asarray(x).shape, want)
+    if k == 0:
+        return None          # a batch of zero columns: only its shape carries a claim
     # column-wise
     if k is not None and k >= 2:
         for j in range(k):
@@ -690,8 +754,28 @@ def chain_of(d):
 MAPCOQ = {"par2fun": "Mpar2fun", "fun2par": "Mfun2par", "fun2vec": "Mfun2vec", "vec2fun": "Mvec2fun"}
 
 
-def map_case(d, mapname, x, form):
+def run_prelude(g, d, prelude):
+    """bring the object into a life-cycle state before the observed call: "used" (valid calls of all maps, shapes queried: caches
+    filled), "refused" (a malformed call that raised), both in any order"""
+    with warnings.catch_warnings():
+        warnings.simplefilter("ignore")
+        for step_ in (prelude or []):
+            try:
+                if step_ == "used":
+                    f = g.par2fun(np.ones(int(g.par_dim)))
+                    g.fun_shape, g.funvec_shape
+                    g.fun2par(f)
+                elif step_ == "refused":
+                    g.par2fun(np.ones(int(g.par_dim) + 1))
+                elif step_ == "refused-fun2par":
+                    g.fun2par(np.ones(int(np.prod(doc_fun_shape(d))) + 1))
+            except Exception:
+                pass
+
+
+def map_case(d, mapname, x, form, prelude=None):
     g = build_geom(d)
+    run_prelude(g, d, prelude)
     x = np.array(x, dtype=float)
     handed = []
     layout = form.split("@")[1] if "@" in form else None
@@ -702,7 +786,7 @@ def map_case(d, mapname, x, form):
         sc = 2.0 ** 24 if layout == "up" else 2.0 ** -24
         handed[0] = handed[0] / sc
         y = None if y is None else y / sc
-    meta = {"op": "map", "geom": d, "map": mapname, "x": x.tolist(), "form": form}
+    meta = {"op": "map", "geom": d, "map": mapname, "x": x.tolist(), "form": form, "prelude": prelude}
     k, _ = split_cols(x, in_base_of(d, mapname))
     if innermost(d)["kind"] == "step" and mapname == "fun2par" and d["kind"] == "step":
         obs = "None" if y is None else "(Some %s)" % carr(y, coqc_opt)
@@ -722,7 +806,7 @@ def map_case(d, mapname, x, form):
     if isinstance(fail, tuple):
         fail, site = fail
     sig = sig_for(d, site, k if site == mapname else None) if fail else ""
-    return Case(expr=expr, meta=meta, cell="map/%s/%s/%s" % (gcell(d), mapname, form), trivial=is_identity(d),
+    return Case(expr=expr, meta=meta, cell="map/%s/%s/%s%s" % (gcell(d), mapname, form, ("/after-" + "+".join(prelude)) if prelude else ""), trivial=is_identity(d),
                 kind="EXACT" if is_exact(d) else "DECISION", impl_fail=fail, signature=sig)
 
 
@@ -754,6 +838,20 @@ def map_cases_for(ctx, d, reps=1):
         for form, shp in forms:
             for _ in range(reps if "@" not in form and form != "malformed3d" else 1):
                 out.append(map_case(d, mapname, rand_arr(rng, shp), form))
+        if mapname in ("par2fun", "fun2par") and int(np.prod(base)) > 0:
+            # exact zeros inside the data (an all-zero vector, a single non-zero entry, a batch with an all-zero column) and a batch
+            # of zero columns
+            z = np.zeros(tuple(base))
+            out.append(map_case(d, mapname, z, "zeros"))
+            one = np.zeros(int(np.prod(base)))
+            one[rng.randrange(len(one))] = rng.choice([-3.0, 2.0, 5.0])
+            zc = rand_arr(rng, tuple(base) + (3,))
+            zc[..., 1] = 0.0
+            out.append(map_case(d, mapname, zc, "batch3-zerocol"))
+            if innermost(d)["kind"] != "kl":
+                out.append(map_case(d, mapname, one.reshape(tuple(base)), "onehot"))
+            if not any(m_is_matrix(m) for m in chain_of(d)) and innermost(d)["kind"] != "kl":
+                out.append(map_case(d, mapname, np.zeros(tuple(base) + (0,)), "batch0"))
         # malformed: one element too many / too few
         n = int(np.prod(base))
         bad = (n + 1,) if rng.random() < 0.5 or n <= 1 else (n - 1,)
@@ -799,7 +897,8 @@ def klfull_cases(ctx):
     """KLExpansion_Full: par2fun on single vectors (also SHORTER ones: the missing modes are zero), too long vectors refused,
     batches refused (freq[:m] = p needs a 1-d p), no fun2par, shapes, Samples.funvals (a per-sample loop) through it"""
     out = []
-    for d in ({"kind": "klfull", "N": 5, "std": 1.0, "cor_len": 0.2, "nu": 3.0}, {"kind": "klfull", "N": 4, "std": 2.0, "cor_len": 0.5, "nu": 1.5},
+    for d in ({"kind": "klfull", "N": 5, "std": 1.0, "cor_len": 0.2, "nu": 3.0}, {"kind": "klfull", "N": 6, "std": 1.0, "cor_len": 0.2, "nu": 3.0, "defaults": True},
+              {"kind": "klfull", "N": 4, "std": 2.0, "cor_len": 0.5, "nu": 1.5},
               {"kind": "klfull", "N": 2, "std": 0.5, "cor_len": 1.0, "nu": 0.0}):
         N = d["N"]
         out.append(shape_case(d))
@@ -888,6 +987,37 @@ def step_regrid_case(d_old, d_new, mapname, x):
                 kind="DECISION", impl_fail=fail, signature=STEP_STALE if fail else "")
 
 
+def collections_counter():
+    import collections
+    return collections.Counter()
+
+
+def lifecycle_cases(ctx, geoms):
+    """L14: every refusal clause (malformed shapes, missing imap, maps not offered) and every valid call in every life-cycle state
+    of the geometry object: fresh (the lattice cells), used, after a refused call, used-then-refused, refused-then-used"""
+    rng, out = ctx.rng, []
+    pick, seen = [], collections_counter()
+    for d in geoms:
+        if innermost(d)["kind"] in ("kl", "step", "cont2d", "image", "customkl") or (d["kind"] == "mapped" and not d["imap"]):
+            key = gcell(d)
+            if seen[key] < (1 if innermost(d)["kind"] == "kl" else 2):
+                seen[key] += 1
+                pick.append(d)
+    for d in pick:
+        if d["kind"] == "kl" and d["num_modes"] == 0:
+            continue
+        ps, fs = doc_par_shape(d), doc_fun_shape(d)
+        n, nf = int(np.prod(ps)), int(np.prod(fs))
+        for prelude in (["used"], ["refused"], ["used", "refused"], ["refused-fun2par", "used"]):
+            out.append(map_case(d, "par2fun", rand_arr(rng, (n + 1,)), "malformed", prelude))
+            if n > 1:
+                out.append(map_case(d, "par2fun", rand_arr(rng, (2 * n,)), "malformed-double", prelude))    # a size numpy could reshape
+            out.append(map_case(d, "fun2par", rand_arr(rng, (nf + 1,)), "malformed", prelude))
+            out.append(map_case(d, "par2fun", rand_arr(rng, tuple(ps)), "single", prelude))
+            out.append(map_case(d, "fun2par", rand_arr(rng, tuple(fs)), "single", prelude))
+    return out
+
+
 def kl_regrid_case(d_old, d_new, mapname, x):
     """KLExpansion built on d_old's grid, used (coefficient caches filled), then its grid attribute is replaced by d_new's:
     the maps must be those of KLExpansion built on the new grid (model: GKL of d_new)"""
@@ -967,6 +1097,14 @@ def linspace_case(a, b, num):
 SOPS = {"funvals": "Sfunvals", "vector": "Svector", "parameters": "Sparameters"}
 
 
+NPINT = "Geometry.fun_is_array|numpy-int-shape"
+
+
+def NPINT_FIXED():
+    import cuqi.geometry as G
+    return bool(G.Image2D((np.int64(2), np.int32(3))).fun_is_array)
+
+
 def samples_case(d, arr, is_par, is_vec, ops, layout=None):
     """layout: dtype / memory layout in which the sample array is STORED in the Samples object (integer chains, Fortran order,
     non-contiguous views): conversions must give the same values whatever the storage of the input"""
@@ -995,12 +1133,18 @@ def samples_case(d, arr, is_par, is_vec, ops, layout=None):
     fail = None
     vec_undefined = innermost(d)["kind"] == "cont2d"
     has_inv = has_inverse(d)
+    if not is_par and any(not isinstance(R_.samples, np.ndarray) for R_ in trail):
+        fail = "a conversion returned a %s of function values although the geometry's fun_shape %s is an array shape" % (
+            type([R_ for R_ in trail if not isinstance(R_.samples, np.ndarray)][0].samples).__name__, doc_fun_shape(d))
     if is_par:
         ex = is_exact(d)
         if obs is None and not (vec_undefined and "vector" in ops and not is_identity(d)) and not ("parameters" in ops and not has_inv):
-            fail = "conversion chain %s raised" % (ops,)
+            fail = "conversion chain %s raised or returned a non-array" % (ops,)
         elif obs is not None:
             R0 = trail[0] if ops[0] == "funvals" else None
+            if R0 is not None and not isinstance(R0.samples, np.ndarray):
+                fail = "funvals holds a %s of function values although the geometry's fun_shape %s is an array shape" % (type(R0.samples).__name__, doc_fun_shape(d))
+                R0 = None
             if R0 is not None:
                 for i in range(arr.shape[-1]):
                     yi = call(g, "par2fun", arr[:, i])
@@ -1032,6 +1176,8 @@ def samples_case(d, arr, is_par, is_vec, ops, layout=None):
         sig = "%s.par2fun|%s" % (CLASSNAME[innermost(d)["kind"]], SQ)       # root cause: squeeze() in the geometry map
     if fail and innermost(d)["kind"] == "step" and step_defect(innermost(d)):
         sig = step_defect(innermost(d))[0]
+    if fail and innermost(d).get("npint") and not NPINT_FIXED():
+        sig = NPINT                 # fun_is_array is False for an image shape given as numpy integers: list-valued results
     return Case(expr=expr, meta={"op": "samples", "geom": d, "array": arr.tolist(), "is_par": is_par, "is_vec": is_vec, "ops": ops, "layout": layout},
                 cell="samples/%s/%s%s%s" % (gcell(d), "-".join(ops), "" if is_par else ("/fromvec" if is_vec else "/fromfun"), ("@" + layout) if layout else ""),
                 kind="EXACT" if exact else "DECISION", impl_fail=fail, signature=sig)
@@ -1160,11 +1306,33 @@ def py_equal_attr(v, w):
         return False
 
 
-def eq_case(d1, d2, used, cellname):
-    """g1 == g2 for two geometries built from descriptors; `used` = maps of g1 (and/or g2) are called first (fills caches)"""
+def eq_case(d1, d2, used, cellname, pre=None):
+    """g1 == g2 for two geometries built from descriptors; `used` = maps of g1 (and/or g2) are called first (fills caches).
+    pre = "alias": the arrays g1 was constructed from are afterwards overwritten IN PLACE by their owner (aliasing over time);
+    pre = "copy":  a shallow copy of g1 is made and the COPY's grid is replaced; g1 itself must be unaffected."""
     import cuqi.geometry as G
+    import copy as _copy
     shared = {}
-    g1, g2 = build_geom_eq(d1, shared), build_geom_eq(d2, shared)
+    del _SOURCE_ARRAYS[:]
+    g1 = build_geom_eq(d1, shared)
+    src = list(_SOURCE_ARRAYS)
+    g2 = build_geom_eq(d2, shared)
+    if pre == "alias":
+        for u in src:
+            u[...] = u[::-1] * 3.0 + 1.0
+    if pre == "copy":
+        with warnings.catch_warnings():
+            warnings.simplefilter("ignore")
+            c_ = _copy.copy(g1)
+            tgt = c_.geometry if isinstance(c_, G.MappedGeometry) else c_
+            try:
+                if isinstance(tgt.grid, tuple):
+                    tgt.grid = tuple(np.asarray(a_) * 2.0 + 5.0 for a_ in tgt.grid)
+                else:
+                    tgt.grid = np.asarray(tgt.grid) * 2.0 + 5.0
+                c_.par2fun(np.ones(int(c_.par_dim)))
+            except Exception:
+                pass
     with warnings.catch_warnings():
         warnings.simplefilter("ignore")
         for g, u in ((g1, used[0]), (g2, used[1])):
@@ -1193,9 +1361,9 @@ def eq_case(d1, d2, used, cellname):
                 atoms.t[("geom", id(v))] = atoms.t.get(("geom", id(w)), atoms.of(("geom", min(id(v), id(w))))) if same_inner else atoms.of(("geom", id(v)))
             out.append((k, v))
         return out
-    # which __eq__ runs: Python gives priority to the right operand when its type is a proper subclass of the left one's and
-    # overrides __eq__ (the default geometries do); the callee is `S`, its argument `O`
-    swap = type(g2) is not type(g1) and issubclass(type(g2), type(g1)) and type(g2).__eq__ is not type(g1).__eq__
+    # which __eq__ runs: Python gives priority to the right operand when its type is a proper subclass of the left one's
+    # (do_richcompare); the callee is `S`, its argument `O`
+    swap = type(g2) is not type(g1) and issubclass(type(g2), type(g1))      # CPython: for comparisons, whether or not __eq__ is overridden
     S, O = (g2, g1) if swap else (g1, g2)
     aS = attrs(S, O)
     aO = attrs(O, S)
@@ -1227,8 +1395,17 @@ def eq_case(d1, d2, used, cellname):
         return True
     fail, sig = None, ""
     same_desc = json.dumps(d1, sort_keys=True) == json.dumps(d2, sort_keys=True)
+    try:
+        obs_rev = bool(g2 == g1)
+    except Exception:
+        obs_rev = None
     if obs is None:
         fail = "== raised"
+    elif obs_rev is not None and obs_rev != obs and type(g1) is type(g2):
+        fail = "equality of two %s objects is not symmetric: a == b is %s, b == a is %s" % (type(g1).__name__, obs, obs_rev)
+    elif pre == "copy" and isinstance(g1, G.MappedGeometry) and same_desc and not obs:
+        fail = None        # the copy of a MappedGeometry shares the wrapped geometry by design: no claim
+        obs_claim = False
     elif same_desc and not obs:
         fail = "two geometries built from the same arguments compare unequal (maps called before: %s)" % (used,)
         differing = [k for k in vars(S) if k not in vars(O) or not py_equal_attr(vars(S)[k], vars(O)[k])]
@@ -1254,7 +1431,7 @@ def eq_case(d1, d2, used, cellname):
             sig = EQ_BROADCAST      # ... the same, inside the wrapped geometries
     if fail and not sig:
         sig = "%s.__eq__" % CLASSNAME[innermost(d1)["kind"]]
-    return Case(expr=expr, meta={"op": "eq", "d1": d1, "d2": d2, "used": list(used), "cellname": cellname}, cell="eq/" + cellname,
+    return Case(expr=expr, meta={"op": "eq", "d1": d1, "d2": d2, "used": list(used), "cellname": cellname, "pre": pre}, cell="eq/" + cellname,
                 kind="DECISION", impl_fail=fail, signature=sig)
 
 
@@ -1289,6 +1466,23 @@ def eq_cases(ctx, geoms):
     mp = lambda **k: dict({"kind": "mapped", "inner": c1(n=3), "a": 2.0, "b": 0.0, "imap": True}, **k)
     pairs += [(mp(), mp(a=3.0)), (mp(), mp(imap=False)), (mp(), mp(inner=c1(n=4))), (mp(), mp(inner={"kind": "discrete", "n": 3})),
               (mp(inner=c1(n=1, gridvals=[2.0])), mp(inner=c1(n=3, gridvals=[2.0, 2.0, 2.0])))]
+    # aliasing over time (L15): the arrays the geometry was built from are overwritten in place by the caller afterwards;
+    # shallow copies (L25): the grid of a copy.copy() is replaced, the original is compared AFTER that; both must equal a fresh twin
+    gv = [c1(n=4, gridvals=[0.5, 0.75, 1.0, 1.25]), {"kind": "cont2d", "n1": 2, "n2": 3, "gridvals": [[-1.0, 0.5], [0.0, 0.25, 0.5]]},
+          st(), st(n_steps=7), kl(), kl(num_modes=None)]
+    for d in gv:
+        if d["kind"] != "kl":
+            out.append(eq_case(d, d, (0, 0), "%s/twin/aliased-source" % gcell(d), "alias"))
+            out.append(eq_case(d, d, (1, 0), "%s/twin/aliased-source-used" % gcell(d), "alias"))
+        out.append(eq_case(d, d, (0, 0), "%s/twin/copy-regridded" % gcell(d), "copy"))
+        out.append(eq_case(d, d, (2, 0), "%s/twin/used-copy-regridded" % gcell(d), "copy"))
+    # exact type vs subclass (L23) and names that coincide with the generated ones (L17)
+    sub = lambda d: dict(d, subclass=True)
+    pairs += [(c1(n=3), sub(c1(n=3))), (sub(c1(n=3)), c1(n=3)), (sub(c1(n=3)), sub(c1(n=3))), ({"kind": "default1d", "n": 3}, sub(c1(n=3))),
+              (sub(c1(n=3)), {"kind": "default1d", "n": 3}), (st(), sub(st())), (sub(st()), st()), (sub(st()), sub(st(n_steps=2))),
+              ({"kind": "default2d", "r": 3, "c": 2, "visual": False}, {"kind": "image", "r": 3, "c": 2, "order": "C", "visual": False, "subclass": True}),
+              ({"kind": "discrete", "n": 2, "names": ["v0", "v1"]}, {"kind": "discrete", "n": 2}), ({"kind": "discrete", "n": 1, "names": ["v"]}, {"kind": "discrete", "n": 1}),
+              ({"kind": "image", "r": 2, "c": 3, "order": "C", "visual": False, "npint": True}, {"kind": "image", "r": 2, "c": 3, "order": "C", "visual": False})]
     for (a, b) in pairs:
         for used in ((0, 0), (2, 1)):
             out.append(eq_case(a, b, used, "%s-vs-%s/%s" % (gcell(a), gcell(b), "fresh" if used == (0, 0) else "used")))
@@ -1365,6 +1559,10 @@ def geoms_lattice(ctx):
           {"kind": "mapped", "inner": {"kind": "discrete", "n": 3}, "fmap": mat(prolong(3)), "imap": False},
           {"kind": "mapped", "inner": c1(5), "fmap": mat(inject(3)), "imap": False},
           {"kind": "mapped", "inner": c1(4), "fmap": mat(reverse(4), reverse(4)), "imap": True},
+          {"kind": "mapped", "inner": c1(3), "fmap": dict(mat(prolong(3), inject(3)), style="F"), "imap": True},
+          {"kind": "mapped", "inner": c1(3), "fmap": dict(mat(prolong(3), inject(3)), style="buffer"), "imap": True},
+          {"kind": "mapped", "inner": inners[4], "fmap": dict(mat(cumsum(7), diffm(7)), style="buffer"), "imap": True},
+          {"kind": "mapped", "inner": {"kind": "discrete", "n": 4}, "fmap": dict(mat(reverse(4), reverse(4)), style="F"), "imap": True},
           {"kind": "mapped", "inner": c1(2), "fmap": mat([[1.0, 2.0], [3.0, 4.0], [0.0, 1.0]], [[-2.0, 1.0, 0.0], [1.5, -0.5, 0.0]]), "imap": True},
           {"kind": "mapped", "inner": {"kind": "discrete", "n": 3}, "fmap": mat([[0.5, -1.0, 2.0], [-3.0, 0.25, 1.0], [1.0, 1.0, -1.0]]), "imap": False},
           {"kind": "mapped", "inner": c1(4), "fmap": mat(cumsum(4), diffm(4)), "imap": True},
@@ -1374,6 +1572,14 @@ def geoms_lattice(ctx):
           {"kind": "mapped", "inner": {"kind": "mapped", "inner": c1(3), "fmap": mat(prolong(3), inject(3)), "imap": True}, "a": 2.0, "b": -1.0, "imap": True},
           {"kind": "mapped", "inner": {"kind": "mapped", "inner": c1(3), "fmap": moeb, "imap": True}, "fmap": mat(prolong(3), inject(3)), "imap": True},
           {"kind": "mapped", "inner": {"kind": "mapped", "inner": c1(3), "fmap": mat(prolong(3), inject(3)), "imap": True}, "fmap": mat(inject(3), prolong(3)), "imap": False}]
+    # shipped DEFAULTS, constructed without passing them (L22); numpy-integer image sizes and user subclasses (L23)
+    L += [{"kind": "kl", "N": 6, "num_modes": None, "decay": 2.5, "tau": 12.0, "defaults": True},
+          {"kind": "image", "r": 2, "c": 3, "order": "C", "visual": False, "defaults": True},
+          {"kind": "customkl", "N": 10, "trunc": 2, "mean": 0.0, "std": 1.0, "cor_len": None, "defaults": True},
+          {"kind": "image", "r": 2, "c": 3, "order": "F", "visual": False, "npint": True},
+          {"kind": "cont1d", "n": 3, "subclass": True},
+          {"kind": "image", "r": 3, "c": 2, "order": "F", "visual": False, "subclass": True},
+          {"kind": "step", "grid": hexgrid(np.linspace(0.0, 1.0, 7)), "n_steps": 3, "proj": "mean", "subclass": True}]
     # CustomKL (no fun2par offered): par2fun = mean + eigvec sqrt(eigval) p, batches, Samples
     L += [{"kind": "customkl", "N": 6, "trunc": 2, "mean": 0.0, "std": 1.0, "cor_len": 0.5},
           {"kind": "customkl", "N": 7, "trunc": 3, "mean": 1.5, "std": 2.0, "cor_len": 0.25},
@@ -1463,9 +1669,11 @@ def run(ctx):
         x0, h = rng.randint(-16, 16) / 8.0, rng.choice([0.125, 0.25, 0.5, 1.0, 2.0, 3.0])
         n = rng.choice([v for v in (1, 2, 4, 8, 16) if v <= N])
         cases.append(step_init_q_case([x0 + h * k for k in range(N)], n, "step/init/dyadic"))
-    for _ in range(ctx.n(30, 200)):
+    for _ in range(ctx.n(60, 200)):
         N = rng.randint(1, 9)
         x0, h = rng.randint(-8, 8) / 4.0, rng.choice([0.25, 0.5, 1.0])
+        if rng.random() < 0.4:
+            x0 += rng.choice([2.0 ** 20, -2.0 ** 24, 2.0 ** 10])      # large offsets: the regularity test is about the SPACINGS (L26)
         gridv = [x0 + h * k for k in range(N)]
         kind = rng.choice(["too-many-steps", "irregular", "one-node", "slightly-irregular", "mildly-irregular"])
         n = rng.choice([1, 2, 4])
@@ -1522,14 +1730,16 @@ def run(ctx):
                 arrv = rand_arr(rng, (int(np.prod(fs)), 2))
                 for ops in (["funvals"], ["parameters"], ["funvals", "vector"]):
                     cases.append(samples_case(d, arrv, False, True, ops))
+        # a chain of zero samples (L21)
+        cases.append(samples_case(d, np.zeros((pd, 0)), True, True, ["funvals", "parameters"]))
         # dtype and memory layout of the STORED arrays (lesson 5, for the conversion loops as well as for the maps): an integer chain
         # through a geometry with non-integer function values must not be truncated, Fortran-ordered and strided storage must not matter
         arrL = rand_arr(rng, (pd, 3))
-        for layout_, ops in (("int", ["funvals"]), ("int", ["funvals", "parameters"]), ("int32", ["funvals", "vector", "parameters"]),
+        for layout_, ops in (("int", ["funvals", "parameters"]), ("int32", ["funvals", "vector", "parameters"]),
                              ("F", ["funvals", "parameters"]), ("view", ["funvals", "vector", "funvals"])):
             cases.append(samples_case(d, arrL, True, True, ops, layout_))
         arrfL = rand_arr(rng, tuple(fs) + (2,))
-        for layout_, ops in (("int", ["parameters"]), ("int", ["vector", "parameters"]), ("F", ["parameters"]), ("view", ["vector"])):
+        for layout_, ops in (("int", ["parameters"]), ("F", ["vector", "parameters"])):
             cases.append(samples_case(d, arrfL, False, len(fs) == 1, ops, layout_))
         cases.append(cuqiarray_case(d, rand_arr(rng, (pd,)), True, False, "int"))
         cases.append(cuqiarray_case(d, rand_arr(rng, tuple(fs)), False, True, "int"))
@@ -1549,6 +1759,7 @@ def run(ctx):
         cases.append(cuqiarray_case(dimp, rand_arr(rng, (n_,)), True, False))
         cases.append(cuqiarray_case(dimp, rand_arr(rng, (n_,)), True, True))
     cases += klfull_cases(ctx)
+    cases += lifecycle_cases(ctx, geoms)
     cases += eq_cases(ctx, geoms)
     cases = spread(cases)
     return Result(cases=cases, rule=RULE,
@@ -1563,7 +1774,7 @@ def run(ctx):
 def _recase(meta):
     op = meta.get("op")
     if op == "map":
-        return map_case(meta["geom"], meta["map"], np.array(meta["x"], dtype=float), meta.get("form", "replay"))
+        return map_case(meta["geom"], meta["map"], np.array(meta["x"], dtype=float), meta.get("form", "replay"), meta.get("prelude"))
     if op == "shapes":
         return shape_case(meta["geom"])
     if op == "step_init":
@@ -1583,7 +1794,7 @@ def _recase(meta):
     if op == "kl_regrid":
         return kl_regrid_case(meta["old"], meta["new"], meta["map"], np.array(meta["x"], dtype=float))
     if op == "eq":
-        return eq_case(meta["d1"], meta["d2"], tuple(meta["used"]), meta.get("cellname", "replay"))
+        return eq_case(meta["d1"], meta["d2"], tuple(meta["used"]), meta.get("cellname", "replay"), meta.get("pre"))
     return None
 
 
@@ -1627,6 +1838,9 @@ WITNESSES = {
     STEP_STALE:
         {"op": "step_regrid", "old": {"kind": "step", "grid": hexgrid(np.linspace(0.0, 1.0, 7)), "n_steps": 3, "proj": "mean"},
          "new": {"kind": "step", "grid": hexgrid(np.linspace(0.0, 1.0, 10)), "n_steps": 3, "proj": "mean"}, "map": "par2fun", "x": [1.0, 2.0, 3.0]},
+    NPINT:
+        {"op": "samples", "geom": {"kind": "image", "r": 2, "c": 3, "order": "F", "visual": False, "npint": True},
+         "array": np.arange(12.0).reshape(6, 2).tolist(), "is_par": True, "is_vec": True, "ops": ["funvals"], "layout": None},
     EQ_BROADCAST:
         {"op": "eq", "d1": {"kind": "cont1d", "n": 1, "gridvals": [2.0]}, "d2": {"kind": "cont1d", "n": 3, "gridvals": [2.0, 2.0, 2.0]}, "used": [0, 0], "cellname": "witness"},
     EQ_CACHE:
